@@ -198,6 +198,7 @@ func Run(r *rt.Run) error {
 		named{"ints+mixed", ToBatches([][]Pt{Seqs["ints"], Seqs["mixed"]}, false)},
 		named{"floats+single", ToBatches([][]Pt{Seqs["floats"], Seqs["single"]}, false)},
 		named{"single+ints", ToBatches([][]Pt{Seqs["single"], Seqs["ints"]}, false)},
+		named{"ooo+floats", ToBatches([][]Pt{Seqs["ooo"], Seqs["floats"]}, false)},
 	)
 	nRand := 2
 	if r.Thorough() {
@@ -339,7 +340,7 @@ func Run(r *rt.Run) error {
 	r.Extra["traces_per_kind"] = x.byKind
 	r.Extra["late_mutation_in_chains_drift"] = x.unstable
 	r.Extra["node_errors_reported"] = x.nodeErrs
-	r.Finish(fmt.Sprintf("every parameterisation (%d over %d node kinds) alone under 5 source groupings on every input; every chain of length 2 on stream and batch edges; chains of length 3 (thorough: all, quick: every kind triple + seeded sample); forks with a shared message (every variant against a tap sibling, under the source and under a node; variant pairs). Real tasks with a log() sink under every node; inputs: 4 hand-written sequences (ints, mixed types/missing fields, floats/second measurement/missing group tag, single-field) + seeded random ones, 2 groups, repeated timestamps. Non-trivial = >= 2 nodes and some node emitted something, distinct by (pipeline, input)", len(vs), len(Kinds)), r.Thorough())
+	r.Finish(fmt.Sprintf("every parameterisation (%d over %d node kinds) alone under 5 source groupings on every input; every chain of length 2 on stream and batch edges; chains of length 3 (thorough: all, quick: every kind triple + seeded sample); forks with a shared message (every variant against a tap sibling, under the source and under a node; variant pairs). Real tasks with a log() sink under every node; inputs: 5 hand-written sequences (ints, mixed types/missing fields, floats/second measurement/missing group tag, single-field, times going backwards) + seeded random ones, 2 groups, repeated timestamps. Non-trivial = >= 2 nodes and some node emitted something, distinct by (pipeline, input)", len(vs), len(Kinds)), r.Thorough())
 	return nil
 }
 
